@@ -1,4 +1,73 @@
-(* extops.ml — parsing/printing of the traversal-based operations (added with Memfs/WalkOps.v) *)
+(* extops.ml — parsing/printing of the traversal-based operations (Memfs/WalkOps.v) *)
 open Model
-let parse_op (s : string) : op = failwith ("unknown op " ^ s)
-let rval_s (_ : rval) : string = "?"
+open Conv
+
+(* option strings: k=v,k=v *)
+let kv (s : string) : (string * string) list =
+  if s = "" || s = "-" then [] else
+  List.map (fun x -> match String.index_opt x '=' with
+      | Some i -> (String.sub x 0 i, String.sub x (i + 1) (String.length x - i - 1))
+      | None -> (x, "1")) (String.split_on_char ',' s)
+let geti o k d = try int_of_string (List.assoc k o) with Not_found -> d
+let getb o k = geti o k 0 <> 0
+let has o k = List.mem_assoc k o
+
+(* entries options in builder-call order: the string lists the calls, e.g. "follow=1,min=1,max=2,sort,df,ff,cf,dirs,files,maxdesc=1" *)
+let wopts_of (s : string) : wopts =
+  List.fold_left (fun o (k, v) ->
+      match k with
+      | "follow" -> w_follow o (v <> "0")
+      | "min" -> w_min_depth o (nat_of_int (int_of_string v))
+      | "max" -> w_max_depth o (Some (nat_of_int (int_of_string v)))
+      | "sort" -> w_sort_by_name o
+      | "df" -> w_dirs_first o
+      | "ff" -> w_files_first o
+      | "cf" -> w_contents_first o
+      | "dirs" -> w_dirs o
+      | "files" -> w_files o
+      | "maxdesc" -> w_maxdesc o (n_of_int (int_of_string v))
+      | _ -> failwith ("wopt " ^ k)) default_wopts (kv s)
+
+let parse_op (s : string) : op =
+  match String.split_on_char ':' s with
+  | ["paths"; p] -> OList (LPaths, arg_str p)
+  | ["dirs"; p] -> OList (LDirs, arg_str p)
+  | ["files"; p] -> OList (LFiles, arg_str p)
+  | ["all_paths"; p] -> OList (LAllPaths, arg_str p)
+  | ["all_dirs"; p] -> OList (LAllDirs, arg_str p)
+  | ["all_files"; p] -> OList (LAllFiles, arg_str p)
+  | ["entries"; p; o] -> OEntries (arg_str p, wopts_of o)
+  | ["copy"; a; b] -> OCopy (arg_str a, arg_str b, { cp_mode = None; cp_cdirs = false; cp_cfiles = false; cp_follow = false })
+  | ["copy_b"; a; b; o] ->
+      let o = kv o in
+      let mode, cd, cf =
+        if has o "all" then (Some (n_of_int (geti o "all" 0)), false, false)
+        else if has o "cdirs" then (Some (n_of_int (geti o "cdirs" 0)), true, false)
+        else if has o "cfiles" then (Some (n_of_int (geti o "cfiles" 0)), false, true)
+        else (None, false, false) in
+      OCopy (arg_str a, arg_str b, { cp_mode = mode; cp_cdirs = cd; cp_cfiles = cf; cp_follow = getb o "follow" })
+  | ["chmod"; p; m] ->
+      let m = n_of_int (int_of_string m) in
+      OChmod (arg_str p, { ch_dirs = m; ch_files = m; ch_follow = false; ch_recursive = true; ch_sym = [] })
+  | ["chmod_b"; p; o; sym] ->
+      let o = kv o in
+      let all = geti o "all" 0 in
+      OChmod (arg_str p, { ch_dirs = n_of_int (if has o "dirs" then geti o "dirs" 0 else all);
+                           ch_files = n_of_int (if has o "files" then geti o "files" 0 else all);
+                           ch_follow = getb o "follow"; ch_recursive = not (has o "norecurse"); ch_sym = arg_str sym })
+  | ["chown"; p; u; g] ->
+      OChown (arg_str p, { co_uid = Some (n_of_int (int_of_string u)); co_gid = Some (n_of_int (int_of_string g));
+                           co_follow = false; co_recursive = true })
+  | ["chown_b"; p; o] ->
+      let o = kv o in
+      OChown (arg_str p, { co_uid = (if has o "uid" then Some (n_of_int (geti o "uid" 0)) else None);
+                           co_gid = (if has o "gid" then Some (n_of_int (geti o "gid" 0)) else None);
+                           co_follow = getb o "follow"; co_recursive = not (has o "norecurse") })
+  | ["mkfile_m"; p; m] -> OMkfileM (arg_str p, n_of_int (int_of_string m))
+  | _ -> failwith ("unknown op " ^ s)
+
+let rval_s (v : rval) : string =
+  match v with
+  | VPaths ps -> "L" ^ String.concat "," (List.map hex_str ps)
+  | VItems is -> "I" ^ String.concat "," (List.map (function Inl p -> hex_str p | Inr e -> errkind_s e) is)
+  | _ -> "?"
